@@ -211,13 +211,57 @@ def parse_console_final(stdout):
     return d
 
 
+def console_fields_missing(t, sol):
+    """Which of the solution's fields do NOT appear, as numbers, in the final part of what the console listener printed?"""
+    text = t.stdout
+    i = max(text.lower().rfind("result"), text.lower().rfind("solution"))
+    blk = text[i:] if i >= 0 else "\n".join(text.splitlines()[-15:])
+    toks = []
+    for m in re.finditer(r"[-+]?(?:\d+\.\d*|\.\d+|\d+)(?:[eE][-+]?\d+)?|[-+]?inf|nan", blk):
+        try:
+            toks.append((m.group(0), float(m.group(0))))
+        except ValueError:
+            pass
+    ints = {s_ for s_, v in toks if re.fullmatch(r"[-+]?\d+", s_)}
+    vals = [v for s_, v in toks]
+
+    def shown(x):
+        x = float(x)
+        if x != x or x in (float("inf"), float("-inf")):
+            return any(v != v or v == x for v in vals)
+        return any(abs(v - x) <= max(1e-8, 1e-7 * abs(x)) for v in vals)
+    sn = record.snap_solution(sol)
+    missing = []
+    nG = len([e for e in t.log if e["ph"] == "g"])
+    if str(nG) not in ints:
+        missing.append("global trial count %d" % nG)
+    if str(sol.numberOfLocalTrials) not in ints:
+        missing.append("local trial count %d" % sol.numberOfLocalTrials)
+    if sn["v"] is None or not shown(sn["v"]):
+        missing.append("value %r" % (sn["v"],))
+    if not shown(sol.solutionAccuracy):
+        missing.append("accuracy %r" % (sol.solutionAccuracy,))
+    if sn["y"] is not None:
+        for k, yk in enumerate(sn["y"]):
+            if not shown(yk):
+                missing.append("coordinate %d of the point (%r)" % (k, float(yk)))
+    return missing
+
+
 def check_console(t, viol, obs):
     d = parse_console_final(t.stdout)
     if not t.solutions:
         return
     sol = t.solutions[-1]
     if d is None or len(d) < 5:
-        viol.append({"mech": "console-final-report-missing", "parsed": d, "tail": t.stdout[-400:]})
+        # the report is laid out differently from the shipped one: read it format-agnostically - the statement only says that it SHOWS the
+        # solution's actual trial counts, point, value and accuracy
+        missing = console_fields_missing(t, sol)
+        if missing:
+            viol.append({"mech": "console-final-report-missing", "parsed": d, "fields_not_shown": missing, "tail": t.stdout[-400:]})
+        else:
+            obs["console_reports_checked"] = obs.get("console_reports_checked", 0) + 1
+            obs["console_reports_read_format_agnostically"] = obs.get("console_reports_read_format_agnostically", 0) + 1
         return
     obs["console_reports_checked"] = obs.get("console_reports_checked", 0) + 1
     sn = record.snap_solution(sol)
